@@ -382,6 +382,16 @@ def ref_dump(member, model, tree, obj):
     if member["extra_out"] == "extractor" and isinstance(root, dict): root.update(extract(obj))
     return root
 
+def with_empty_nodes(tree, data):
+    """the reference output plus empty containers for nested nodes whose fields were all omitted (the loader requires the node)"""
+    if tree["kind"] != "dict" or not isinstance(data, dict): return data
+    out = dict(data)
+    for key, ch in tree["ch"].items():
+        if not isinstance(ch, tuple):
+            if key not in out: out[key] = {} if ch["kind"] == "dict" else []
+            out[key] = with_empty_nodes(ch, out[key])
+    return out
+
 def prune_empty_nodes(x):
     if isinstance(x, dict):
         r = {k: prune_empty_nodes(v) for k, v in x.items()}
@@ -394,7 +404,7 @@ def c03_dump(member, model, tree, dumpers, obj):
     for dt in DT_MODES:
         r = run(dumpers[dt], obj)
         if not r[0]: return False
-        if prune_empty_nodes(r[1]) != prune_empty_nodes(exp): return False
+        if r[1] != with_empty_nodes(tree, exp): return False        # a nested node is written even when every field in it is omitted
         if type(r[1]) is not type(exp): return False
     return True
 
